@@ -635,7 +635,8 @@ class Parser:
         elif len(tokens) == 1:
             return tokens[0]
         else:
-            raise DisambiguationError(Location(head), tokens)
+            # The error is located at the position of the ambiguous tokens
+            raise DisambiguationError(Location(context=ErrorContext(head)), tokens)
 
     def _next_tokens(self, head):
         """
